@@ -436,6 +436,39 @@ def gen_thread(status):
     return write_if_changed(os.path.join(GEN_DIR, 'Thread.lean'), body)
 
 
+def count_ctor_checks(c):
+    """number of parameterised constructors of the two generator classes that reject `max < min` by throwing, directly or
+    through a file-local helper they call with (min, max) / (max, min)"""
+    n = 0
+    for cls in ('ZipfDistribution', 'ApproxZipfDistribution'):
+        for params, body in cxxscan.find_functions(c, f'{cls}<IntType>::{cls}'):
+            if 'min' not in params or 'max' not in params:
+                continue
+            ok = bool(re.search(r'if\s*\(\s*max\s*<\s*min\s*\)\s*\{?\s*throw', body)) or \
+                bool(re.search(r'if\s*\(\s*min\s*>\s*max\s*\)\s*\{?\s*throw', body))
+            if not ok:
+                for m in re.finditer(r'(?<![\w.>:])([A-Za-z_]\w*)\s*\(\s*(\w+)\s*,\s*(\w+)\s*\)', body):
+                    name, a1, a2 = m.groups()
+                    if {a1, a2} != {'min', 'max'}:
+                        continue
+                    hb = cxxscan.find_free_function(c, name)
+                    hm = re.search(r'(?<![\w:.>])' + re.escape(name) + r'\s*\(([^)]*)\)', c)
+                    if hb is None or hm is None:
+                        continue
+                    ps = [re.sub(r'.*[\s&*]', '', x.strip()) for x in hm.group(1).split(',')]
+                    if len(ps) != 2:
+                        continue
+                    mp = {ps[0]: a1, ps[1]: a2}
+                    for lt in re.finditer(r'if\s*\(\s*(\w+)\s*([<>])\s*(\w+)\s*\)\s*\{?\s*throw', hb):
+                        x, op, y = lt.groups()
+                        if x in mp and y in mp:
+                            lo, hi = (mp[x], mp[y]) if op == '<' else (mp[y], mp[x])
+                            if (lo, hi) == ('max', 'min'):
+                                ok = True
+            n += 1 if ok else 0
+    return n
+
+
 def gen_zipf(status):
     hdr = read(f'{REPO}/include/dbgroup/random/zipf.hpp')
     src = read(f'{REPO}/src/random/zipf.cpp')
@@ -474,7 +507,7 @@ def gen_zipf(status):
     facts['indirect_members'] = indirect
     facts['value_members_only'] = (not indirect) and len(facts['data_members']) >= 8
     c = cxxscan.strip_comments(src)
-    facts['ctor_checks'] = len(re.findall(r'if\s*\(\s*max\s*<\s*min\s*\)\s*\{\s*throw', c))
+    facts['ctor_checks'] = count_ctor_checks(c)
     status['facts']['zipf'] = facts
     body = HEADER + 'namespace CppUtil.Gen\n\n'
     body += f'def zipfExactBinNum : Nat := {vals["kExactBinNum"]}\n'
